@@ -75,6 +75,8 @@ type Config struct {
 	NoPresence bool `json:"nopresence,omitempty"`
 	// ColdCache: purge the snapshot cache before every request.
 	ColdCache bool `json:"coldcache,omitempty"`
+	// LateOpposite: late clients (role >= N) pass the opposite of NoPresence.
+	LateOpposite bool `json:"late_opposite,omitempty"`
 	// OptOut lists roles that attach with client.WithDisableGC().
 	OptOut []int `json:"optout,omitempty"`
 }
@@ -95,6 +97,8 @@ type Replica struct {
 	Cli      *client.Client
 	Doc      *document.Document
 	Attached bool
+	// EverAttached: the current Document instance has been attached before.
+	EverAttached bool
 	// Dirty is set when a sync of this replica failed.
 	SyncErrs int
 	stop     chan struct{}
@@ -102,10 +106,16 @@ type Replica struct {
 
 // Step records what one event did.
 type Step struct {
-	Ev      Event
-	Err     string
+	Ev       Event
+	Err      string
 	NoEffect bool // an edit that produced no change
+	// ViolFrom is the index in Exec.Viol of the first violation this step added
+	// (== len(Viol) after the step if none).
+	ViolFrom int
+	nviol    int
 }
+
+func violBefore(x *Exec, st Step) int { return st.nviol }
 
 // Violation is one oracle failure.
 type Violation struct {
@@ -187,7 +197,9 @@ type Runner struct {
 	Execs    int
 	// AfterEvent observers, called after every event of the history (not setup).
 	AfterEvent []func(x *Exec, i int)
-	MaxExecs   int
+	// BeforeEvent observers, called before every event of the history.
+	BeforeEvent []func(x *Exec, i int)
+	MaxExecs    int
 	// Trace, when set, receives a line per step (debugging / replay output).
 	Trace io.Writer
 	cur   *Exec
@@ -372,12 +384,13 @@ func (x *Exec) newReplica(role int) (*Replica, error) {
 	}
 	d := document.New(x.DocKey, opts...)
 	rep := &Replica{Role: role, Cli: cli, Doc: d, stop: make(chan struct{})}
+	stop := rep.stop
 	go func() {
 		ev := d.Events()
 		for {
 			select {
 			case <-ev:
-			case <-rep.stop:
+			case <-stop:
 				return
 			}
 		}
@@ -387,7 +400,11 @@ func (x *Exec) newReplica(role int) (*Replica, error) {
 
 func (x *Exec) attach(rep *Replica) error {
 	var opts []interface{}
-	if x.Cfg.NoPresence {
+	noPresence := x.Cfg.NoPresence
+	if x.Cfg.LateOpposite && x.Sc != nil && rep.Role >= x.Sc.N {
+		noPresence = !noPresence
+	}
+	if noPresence {
 		opts = append(opts, client.WithDisablePresence())
 	} else if x.Sc != nil && x.Sc.InitialPresence {
 		opts = append(opts, client.WithPresence(presence.Data{"k1": fmt.Sprintf("init%d", rep.Role)}))
@@ -400,7 +417,31 @@ func (x *Exec) attach(rep *Replica) error {
 		return err
 	}
 	rep.Attached = true
+	rep.EverAttached = true
 	return nil
+}
+
+// freshDoc gives the replica a new Document instance for the same key.
+func (x *Exec) freshDoc(rep *Replica) {
+	close(rep.stop)
+	var opts []document.Option
+	if x.Cfg.NoGC {
+		opts = append(opts, document.WithDisableGC())
+	}
+	d := document.New(x.DocKey, opts...)
+	rep.Doc = d
+	rep.stop = make(chan struct{})
+	stop := rep.stop
+	go func() {
+		ev := d.Events()
+		for {
+			select {
+			case <-ev:
+			case <-stop:
+				return
+			}
+		}
+	}()
 }
 
 // Guard is guard for other packages.
@@ -500,9 +541,19 @@ func (r *Runner) Run(sc *Scenario, cfg Config, h []Event) *Exec {
 		}
 	}
 
+	// Setup edits are not part of the explored alphabet: they must not be
+	// reachable through undo.
+	for _, rep := range x.Reps {
+		_ = rep.Doc.ClearHistory()
+	}
+
 	// The history proper.
 	for i, e := range h {
+		for _, f := range r.BeforeEvent {
+			f(x, i)
+		}
 		st := x.step(e)
+		st.ViolFrom = violBefore(x, st)
 		x.Steps = append(x.Steps, st)
 		if x.Aborted {
 			return x
@@ -516,7 +567,7 @@ func (r *Runner) Run(sc *Scenario, cfg Config, h []Event) *Exec {
 
 // step executes one event.
 func (x *Exec) step(e Event) Step {
-	st := Step{Ev: e}
+	st := Step{Ev: e, nviol: len(x.Viol)}
 	var rep *Replica
 	if e.C >= 0 && e.C < len(x.Reps) {
 		rep = x.Reps[e.C]
@@ -567,9 +618,18 @@ func (x *Exec) step(e Event) Step {
 			x.violate("sync-error", "sync-error:"+NormErr(err.Error()), fmt.Sprintf("client %d: %v", e.C, err))
 		}
 	case "at":
-		if rep.Attached || rep.Doc.Status() != document.StatusDetached {
+		if rep.Attached || !rep.Cli.IsActive() {
 			st.NoEffect = true
 			break
+		}
+		if rep.EverAttached {
+			// A detached document instance cannot be attached again (documented
+			// lifecycle): re-attaching means a new Document for the same key.
+			if rep.Doc.Status() == document.StatusRemoved {
+				st.NoEffect = true
+				break
+			}
+			x.freshDoc(rep)
 		}
 		err, panicked = guard(func() error {
 			e := x.attach(rep)
@@ -665,6 +725,7 @@ func firstLine(s string) string {
 // NormErr strips tickets, ids and numbers from an error so that it can serve as
 // a signature.
 func NormErr(s string) string {
+	s = rePtr.ReplaceAllString(s, "<ptr>")
 	s = reTicket.ReplaceAllString(s, "<ticket>")
 	s = reHex.ReplaceAllString(s, "#")
 	s = reNum.ReplaceAllString(s, "N")
@@ -676,6 +737,7 @@ func NormErr(s string) string {
 
 var (
 	reTicket = regexp.MustCompile(`\d+:\d+:[A-Za-z0-9+/=_-]+(:\d+)?`)
+	rePtr    = regexp.MustCompile(`0x[0-9a-f]+`)
 	reHex    = regexp.MustCompile(`[0-9a-f]{12,}`)
 	reNum    = regexp.MustCompile(`\d+`)
 )
@@ -702,6 +764,30 @@ func (x *Exec) sync(rep *Replica) error {
 		x.Purged += g0 - g1
 	}
 	return err
+}
+
+// StepPublic executes one extra event outside the enumerated history.
+func (x *Exec) StepPublic(e Event) Step { return x.step(e) }
+
+// FreshAttachMarshal attaches a brand-new client with a new document and
+// returns what it sees; the client is detached again afterwards.
+func (x *Exec) FreshAttachMarshal() (string, error) {
+	rep, err := x.newReplica(len(x.Reps))
+	if err != nil {
+		return "", err
+	}
+	defer close(rep.stop)
+	var out string
+	err, _ = guard(func() error {
+		if e := rep.Cli.Attach(x.ctx, rep.Doc); e != nil {
+			return e
+		}
+		out = rep.Doc.Marshal()
+		e := rep.Cli.Detach(x.ctx, rep.Doc)
+		x.R.W.WaitBackground()
+		return e
+	})
+	return out, err
 }
 
 // DocInfo finds the server-side document.
